@@ -211,7 +211,8 @@ func runC19(b *fw.B) {
 	// ---- time / slot / epoch conversions under various parameter sets
 	specs := []*common.Spec{configs.Mainnet, configs.Minimal}
 	for _, sps := range []uint64{1, 6, 12, 1 << 20} {
-		for _, spe := range []uint64{1, 4, 8, 32, 1 << 31} {
+		// epoch lengths that are and are not powers of two, and one drawn at random
+		for _, spe := range []uint64{1, 3, 4, 6, 8, 12, 32, 100, 1 << 31, 1<<31 - 1, 2 + b.Rng.Uint64()>>uint(34+b.Rng.IntN(29))} {
 			s := *configs.Minimal
 			s.SECONDS_PER_SLOT = common.Timestamp(sps)
 			s.SLOTS_PER_EPOCH = common.Slot(spe)
